@@ -186,11 +186,28 @@ pub fn u64s(v: &Value) -> Vec<u64> {
     v.as_array().map(|a| a.iter().map(|x| x.as_u64().unwrap_or(0)).collect()).unwrap_or_default()
 }
 
-/// Wall-clock watchdog: a run that exceeds it is a tool error (exit 3), never a verdict.
+use std::sync::atomic::{AtomicU64, Ordering as AtomicOrdering};
+static LAST_PROGRESS: AtomicU64 = AtomicU64::new(0);
+static CURRENT_CASE: std::sync::Mutex<String> = std::sync::Mutex::new(String::new());
+fn now_secs() -> u64 { std::time::SystemTime::now().duration_since(std::time::UNIX_EPOCH).map(|d| d.as_secs()).unwrap_or(0) }
+
+/// Note which case is being executed (kept in memory; written out only if the watchdog fires).
+pub fn progress(what: impl FnOnce() -> String) {
+    LAST_PROGRESS.store(now_secs(), AtomicOrdering::Relaxed);
+    if let Ok(mut c) = CURRENT_CASE.try_lock() { *c = what(); }
+}
+
+/// Wall-clock watchdog.  When it fires it writes {"stuck_for": seconds since the last progress() call,
+/// "current": the case in flight} to $VERIF_PROGRESS and exits 3: the orchestrator reports a HANG of the
+/// code under test when one case was stuck for minutes, a tool error when the run was merely slow.
 pub fn watchdog(secs: u64) {
+    LAST_PROGRESS.store(now_secs(), AtomicOrdering::Relaxed);
     std::thread::spawn(move || {
         std::thread::sleep(std::time::Duration::from_secs(secs));
-        eprintln!("WATCHDOG: driver exceeded {secs}s of wall-clock time");
+        let stuck = now_secs().saturating_sub(LAST_PROGRESS.load(AtomicOrdering::Relaxed));
+        let cur = CURRENT_CASE.lock().map(|c| c.clone()).unwrap_or_default();
+        if let Ok(path) = std::env::var("VERIF_PROGRESS") { let _ = std::fs::write(path, serde_json::json!({"stuck_for": stuck, "current": cur, "watchdog_secs": secs}).to_string()); }
+        eprintln!("WATCHDOG: driver exceeded {secs}s of wall-clock time (stuck for {stuck}s on {cur})");
         std::process::exit(3);
     });
 }
